@@ -287,7 +287,7 @@ theorem startPath_after_rast (z : Renderer α β) (r : Rect) (adj : UInt8) (x y 
   RenderHist.startPath_after_rast z r adj x y
 
 /-- … enabled exactly when the machine prescribes a paint at the height of `r`. -/
-theorem startPath_after_rast_enabled_iff (z : Renderer α β) (r : Rect) (adj : UInt8) (x y : α) :
+theorem startPath_rast_enabled_iff (z : Renderer α β) (r : Rect) (adj : UInt8) (x y : α) :
     ((z.setRasterizer r).startPath adj x y).1.disabled = false ↔
       ((absVM z).paintChoice (Rect.norm r).dy adj).isSome = true :=
   RenderHist.startPath_after_rast_enabled_iff z r adj x y
@@ -394,7 +394,7 @@ end Ivg.Props.C04
   Ivg.Props.C04.disabled_silent, Ivg.Props.C04.path_silent, Ivg.Props.C04.path_drawn_once,
   Ivg.Props.C04.render_refines_vm, Ivg.Props.C04.render_refines_vm_open, Ivg.Props.C04.render_blocks, Ivg.Props.C04.all_none_silent,
   Ivg.Props.C04.rast_preserves_machine, Ivg.Props.C04.history_refines_vm, Ivg.Props.C04.styling_comm_rast,
-  Ivg.Props.C04.startPath_after_rast, Ivg.Props.C04.startPath_after_rast_enabled_iff,
+  Ivg.Props.C04.startPath_after_rast, Ivg.Props.C04.startPath_rast_enabled_iff,
   Ivg.Props.C04.realise_current, Ivg.Props.C04.realise_after_rast, Ivg.Props.C04.body_refines_hist,
   Ivg.Props.C04.render_refines_vm_hist, Ivg.Props.C04.render_refines_vm_rast, Ivg.Props.C04.render_refines_vm_reuse,
   Ivg.Lemmas.RendererVM.arcF32_pure,
